@@ -109,7 +109,7 @@ func endsFresh(c *Ctx, g *ssa.Function, isW, isR func(ir.Effect) bool, busy map[
 	writes := callReaching(c, g, isW)
 	reads := callReaching(c, g, isR)
 	for _, wa := range findInstrs(g, writes) {
-		for _, ret := range ir.Returns(g) {
+		for _, ret := range c.W.SuccessReturns(g) { // a failing return hands the error to the caller, which gives up
 			if ir.ReachesFrom(g, wa.Block(), ir.InstrIndex(wa)+1, ret, ir.Cut{Barrier: func(in ssa.Instruction) bool { return in != wa && reads(in) }}) {
 				return false
 			}
